@@ -37,8 +37,9 @@ theorem reachable_step {mode : Bool} {sc : List Act} {s : State} (h : Reachable 
   obtain ⟨ops, rfl⟩ := h
   exact ⟨ops ++ [op], by simp [run, List.foldl_append]⟩
 
-/-- what the body hands over is a prefix of its sequence (`expected sc` = yielded values, then the exception / the end) -/
-theorem obs_prefix {mode : Bool} {sc : List Act} {s : State} (h : Reachable mode sc s) : s.obs <+: expected sc := by
+/-- what the body itself hands over (`s.obs`) is a prefix of its sequence — `expected sc` = the yielded values, then the exception /
+the end: no value skipped, repeated or reordered at the hand-over, the ending handed over at most once -/
+theorem c13_handed_over_prefix {mode : Bool} {sc : List Act} {s : State} (h : Reachable mode sc s) : s.obs <+: expected sc := by
   have hi := reachable_inv h
   have hk := (reachable_konst h).1
   by_cases hf : s.bst = .final
@@ -56,7 +57,7 @@ theorem c13_sequence {mode : Bool} {sc : List Act} {s : State} (h : Reachable mo
   by_cases hp : s.post = []
   · refine ⟨[], by simp, ?_⟩
     rw [hi.seen_eq, hp, List.append_nil, List.append_nil]
-    exact obs_prefix h
+    exact c13_handed_over_prefix h
   · refine ⟨s.post, hi.post_end, ?_⟩
     have hf := hi.post_fin hp
     have hns : inSync s = false := by
@@ -107,7 +108,7 @@ theorem c13_end_once {mode : Bool} {sc : List Act} {s : State} (h : Reachable mo
     (s.exp = true → ∀ e ∈ s.post, e = Item.nomore) := by
   have hi := reachable_inv h
   have hk := (reachable_konst h).1
-  refine ⟨hi.seen_eq, obs_prefix h, fun hp => ?_, hi.post_end, hi.post_exc⟩
+  refine ⟨hi.seen_eq, c13_handed_over_prefix h, fun hp => ?_, hi.post_end, hi.post_exc⟩
   have hf := hi.post_fin hp
   have hns : inSync s = false := by
     cases hs : inSync s with
@@ -250,12 +251,6 @@ theorem c13_guards_once {mode : Bool} {sc : List Act} {s : State} (h : Reachable
   have := hi.guards g
   refine ⟨this, ?_, hi.live_fin⟩
   split at this <;> omega
-
-theorem destroyed_dead (s : State) (hd : (stepDestroy s).2 = .destroyed) : (stepDestroy s).1.alive = false := by
-  unfold stepDestroy at hd ⊢
-  by_cases h1 : s.alive = true <;> by_cases h2 : inSync s = true <;> by_cases h3 : inflight s = true <;>
-    simp only [h1, h2, h3] at hd ⊢ <;> try (simp at hd; done)
-  cases hb : s.bst <;> simp only [hb] at hd ⊢ <;> first | rfl | (simp at hd; done)
 
 /-- **Destroying a parked generator** (at a `co_yield`, before its first activation, or finished) destroys each of its locals
 exactly once: afterwards every guard ever constructed has been destroyed once, none is left, and whatever the consumer still
